@@ -554,3 +554,44 @@ def from_limbs(v):
     for x in reversed(v["d"]):
         n = n * LIMB + x
     return n * (v["s"] if v["s"] else 0)
+
+
+# ----------------------------------------------------------------------------
+# generic "one verdict per event" trace judging (specs with variables i, verdict)
+# ----------------------------------------------------------------------------
+
+def judge_events(workdir, module, cfg, events, chunk=20000, env=None, timeout=1500, extra_vars=()):
+    """Write events as ndjson, run the trace spec, return one verdict (string) per event.
+    Chunks run as parallel TLC processes (one worker each; the behaviour is linear)."""
+    import concurrent.futures as cf
+    os.makedirs(workdir, exist_ok=True)
+    chunks = [events[k:k + chunk] for k in range(0, len(events), chunk)] or [[]]
+    stats = {"generated": 0, "distinct": 0}
+
+    def one(idx):
+        wd = os.path.join(workdir, "c%03d" % idx)
+        os.makedirs(wd, exist_ok=True)
+        tf = os.path.join(wd, "trace.ndjson")
+        with open(tf, "w") as fh:
+            for e in chunks[idx]:
+                fh.write(json.dumps(e) + "\n")
+        dump = os.path.join(wd, "states")
+        e2 = {"TRACE_FILE": tf}
+        e2.update(env or {})
+        res = tlc(wd, module, cfg, workers=1, dump=dump, env=e2, timeout=timeout)
+        verdicts = {}
+        for st in read_dump(dump + ".dump", only={"i", "verdict"} | set(extra_vars)):
+            verdicts[st["i"]] = st["verdict"] if not extra_vars else st
+        os.remove(dump + ".dump")
+        os.remove(tf)
+        if len(verdicts) != len(chunks[idx]) + 1:
+            raise MachineryError("%s: %d verdicts for %d events (see %s)" % (module, len(verdicts) - 1, len(chunks[idx]), res["log"]))
+        return [verdicts[k + 1] for k in range(len(chunks[idx]))], res
+
+    out = []
+    with cf.ThreadPoolExecutor(max_workers=max(1, NCPU // 2)) as ex:
+        for vs, res in ex.map(one, range(len(chunks))):
+            out.extend(vs)
+            stats["generated"] += res["generated"]
+            stats["distinct"] += res["distinct"]
+    return out, stats
